@@ -631,7 +631,7 @@ def fr5b(ctx):
         ctx.missing('frame-exit', 'no Ok exit in the frame reading body')
 
 
-@rule('REC6', ['C02', 'C09', 'C03', 'C12'], floor=1, template='no-reach')
+@rule('REC6', ['C02', 'C09', 'C03', 'C12', 'C18'], floor=1, template='no-reach')
 def rec6(ctx):
     """The record reader never turns a VALID frame into an error: error exits are reachable only from the
     error arms of the frame reader's result (a valid First/Full frame after an unfinished entry starts a
